@@ -62,6 +62,13 @@ RANGE_RULE = "config:\n  valid_addr_range:\n    min: '0'\n    max: 'ffffffffffff
 
 
 def judge_listing(ctx, ws, text, origin):
+    with ctx.ambient_log():
+        if ctx.last_log_level != "warning":
+            origin = origin + f" [logger at {ctx.last_log_level}]"
+        return _judge_listing(ctx, ws, text, origin)
+
+
+def _judge_listing(ctx, ws, text, origin):
     if "crlf" in origin:
         p = ws.write("in.s", text.replace("\n", "\r\n").encode())
     else:
